@@ -164,6 +164,13 @@ def cop(op):
         return "OSnapAll"
     if t == "eq":
         return "OEq %d %d %s" % (op[1], op[2], cnum(op[3]))
+    if t == "fillnp":
+        rows, w = op[2], op[3]
+        ws = w if isinstance(w, list) else [w] * len(rows)
+        return "OFillNp %d %s" % (op[1], clist("(%s, %s)" % (clist(cvalue(v) for v in d), cnum(x))
+                                                for d, x in zip(rows, ws)))
+    if t == "snapp":
+        return "OSnapP %d" % op[1]
     raise ValueError(t)
 
 
